@@ -297,6 +297,55 @@ def generate(rng, tier):
             "id_policy": rng.choice(["always", "always", "coin", "never"])}
 
 
+def _simplify_table(spec):
+    for i in range(len(spec.get("records", ()))):
+        yield dict(spec, records=spec["records"][:i] + spec["records"][i + 1:])
+    for key in ("header", "footer", "titles", "limits", "nt", "skip_columns", "via_fmt_obj", "fmt"):
+        if spec.get(key) not in (None, False, []):
+            yield {k: v for k, v in spec.items() if k != key}
+    fmt = spec.get("fmt")
+    if fmt and ";" in fmt:
+        yield dict(spec, fmt=fmt.split(";")[0])
+    if fmt and "," in fmt.split(";")[0]:
+        cols = fmt.split(";")[0].split(",")
+        rest = fmt[len(fmt.split(";")[0]):]
+        for i in range(len(cols)):
+            yield dict(spec, fmt=",".join(cols[:i] + cols[i + 1:]) + rest)
+
+
+def simplify(trace):
+    """shrink candidates beyond dropping ops: smaller objects, smaller configurations, plainer requests"""
+    from ..models.color_model import flatten
+    for j, spec in enumerate(trace["objs"]):
+        if spec["kind"] in ("table", "recfmt"):
+            for cand in _simplify_table(spec):
+                if spec["kind"] == "recfmt" and not cand.get("records"):
+                    continue
+                yield dict(trace, objs=trace["objs"][:j] + [cand] + trace["objs"][j + 1:])
+        elif spec["kind"] == "pp" and spec["value"] != [1, "a"]:
+            yield dict(trace, objs=trace["objs"][:j] + [dict(spec, value=[1, "a"])] + trace["objs"][j + 1:])
+    for j, init in enumerate(trace["inits"]):
+        flat = flatten(init)
+        for k in sorted(flat):
+            rest = {a: b for a, b in flat.items() if a != k}
+            yield dict(trace, inits=trace["inits"][:j] + [rest] + trace["inits"][j + 1:])
+    for j, en in enumerate(trace["enums"]):
+        if len(en["values"]) > 1:
+            for i in range(len(en["values"])):
+                yield dict(trace, enums=trace["enums"][:j] + [dict(en, values=en["values"][:i] + en["values"][i + 1:])]
+                           + trace["enums"][j + 1:])
+    for i, op in enumerate(trace["ops"]):
+        for key, plain in (("no_color", False), ("palette", None), ("how", "str")):
+            if key in op and op[key] != plain:
+                yield dict(trace, ops=trace["ops"][:i] + [dict(op, **{key: plain})] + trace["ops"][i + 1:])
+        if op.get("op") == "conf_add" and len(op["batch"]) > 1:
+            for k in sorted(op["batch"]):
+                nb = {a: b for a, b in op["batch"].items() if a != k}
+                yield dict(trace, ops=trace["ops"][:i] + [dict(op, batch=nb)] + trace["ops"][i + 1:])
+    if trace.get("id_policy") != "never":
+        yield dict(trace, id_policy="never")
+
+
 # --------------------------------------------------------------------------
 # execution
 
